@@ -563,6 +563,11 @@ class Engine:
             items = list(recv.obj.items())
             hit = z3.Or([self.ev.equal(st, idx, from_py(k)) for k, _ in items] or [z3.BoolVal(False)])
             st.may_raise(z3.Not(hit), 'KeyError', 'constant dict lookup')
+            import inspect as _insp
+            if items and all(_insp.isclass(v) for _, v in items):
+                # a constant table of classes: which class it is follows the key (used when the result is called)
+                from pv.engine2 import ClassSet
+                return VPy(ClassSet([v for _, v in items], [self.ev.equal(st, idx, from_py(k)) for k, _ in items]))
             vals = [self.live_value(v) for _, v in items]
             res = vals[-1] if vals else fresh('any')
             for (k, _), v in reversed(list(zip(items, vals))[:-1]):
